@@ -440,3 +440,19 @@ package dataflow
 //@   assumed
 //@   ensures has(g.ReadLocations, n)
 //@   modifies map(GraphNode;bool)
+
+// ---------------------------------------------------------------------------
+// C08 / C01: summary edges are created from the final marks at EVERY instruction of
+// the kinds that can pass data out of the function or into a call: the dispatcher
+// sends each kind to its edge builder and always checks for synthetic nodes.
+//@ func IntraAnalysisState.makeEdgesAtInstruction
+//@   property C08 C01
+//@   requires state != nil && instr != nil && ref(instr) != 0
+//@   ensures call: istype(instr, *ssa.Call) ==> called(makeEdgesAtCallSite, state, instr)
+//@   ensures go_stmt: istype(instr, *ssa.Go) ==> called(makeEdgesAtCallSite, state, instr)
+//@   ensures defer_stmt: istype(instr, *ssa.Defer) ==> called(makeEdgesAtCallSite, state, instr)
+//@   ensures closure: istype(instr, *ssa.MakeClosure) ==> called(makeEdgesAtClosure, state, instr.(*ssa.MakeClosure))
+//@   ensures ret: istype(instr, *ssa.Return) ==> called(makeEdgesAtReturn, state, instr.(*ssa.Return))
+//@   ensures store: istype(instr, *ssa.Store) ==> called(makeEdgesAtStoreInCapturedLabel, state, instr.(*ssa.Store))
+//@   ensures branch: istype(instr, *ssa.If) ==> called(makeEdgesAtIf, state, instr.(*ssa.If))
+//@   ensures synthetic_always: called(makeEdgesSyntheticNodes, state, instr)
